@@ -165,10 +165,10 @@ type c04Query struct {
 }
 
 type c04Answer struct {
-	None    bool     // the scan defines no answer (any error acceptable)
-	MustErr bool     // an error is required
-	Entries []int    // result entries (index), in order
-	Annots  [][]int  // annotation indices per result entry (order of occurrence for range; any order for latest)
+	None    bool    // the scan defines no answer (any error acceptable)
+	MustErr bool    // an error is required
+	Entries []int   // result entries (index), in order
+	Annots  [][]int // annotation indices per result entry (order of occurrence for range; any order for latest)
 }
 
 func isUpdater(e c04Entry) bool { return e.Kind == "ref" || e.Kind == "prop" }
